@@ -42,6 +42,18 @@ def check(run: Run) -> None:
     cases += [{"src": s, "mode": "exec", "origin": "xonsh_seed"} for s in corpus.xonsh_seeds()]
     cases += [{"src": s, "mode": "exec", "origin": "data:" + n} for n, s in corpus.data_files()]
     cases += xonsh_cases(run, run.tier)
+    # every xonsh construct in the positions where Python allows a restricted expression only (patterns, mapping-pattern keys,
+    # decorators, annotations, subscripts of targets ...): accepted or not, a returned tree has to be one compile() takes
+    from . import c05
+
+    texts = sorted({c["x"] for c in c05.generate(run, True) if c.get("x")})
+    for x in texts:
+        for tmpl in ("match v:\n    case %s:\n        pass\n", "match v:\n    case {%s: w}:\n        pass\n", "match v:\n    case [1, %s]:\n        pass\n",
+                     "match v:\n    case K(%s):\n        pass\n", "match v:\n    case 1 | %s:\n        pass\n", "match v:\n    case (%s as y):\n        pass\n",
+                     "@%s\ndef f(): pass\n", "def f(a: %s = 1) -> %s: pass\n", "x: %s = 1\n", "del y[%s]\n", "with c as y[%s]: pass\n", "for y[%s] in z: pass\n",
+                     "class C(%s, metaclass=%s): pass\n", "type T = %s\n", "def f[T: %s](): pass\n", "global %s\n", "import %s\n", "lambda a=%s: a\n", "assert %s, %s\n",
+                     "raise %s from %s\n", "[y for y in %s if %s]\n", "{**%s}\n", "f(*%s, **%s)\n", "y[%s:%s] = 1\n", "y = %s if %s else %s\n"):
+            cases.append({"src": tmpl.replace("%s", x), "mode": "exec", "origin": "construct-in-restricted-position"})
     seen, uniq = set(), []
     for c in cases:
         if (c["src"], c["mode"]) not in seen:
